@@ -183,6 +183,15 @@ def negation_shape(fn, region):
     inner Some => None, inner None => Some(0). Accepts the if/else form, a match on the inner
     option, or `inner.is_none().then_some(0)`. Returns (ok, detail)."""
     some_none = none_some0 = False
+    # locals that only carry the result to the return place (`_0 = move r`; the return slot of a folded-in helper)
+    carriers = {0}
+    for _ in range(3):
+        for x in sorted(fn.live):
+            for s in fn.blocks[x]["stmts"]:
+                if s["k"] == "assign" and s["lhs"]["l"] in carriers and not s["lhs"]["p"] and isinstance(s["rv"].get("use"), dict):
+                    pl = s["rv"]["use"].get("move") or s["rv"]["use"].get("copy")
+                    if pl is not None and not pl["p"] and len(fn.defs.get(pl["l"], [])) > 1:
+                        carriers.add(pl["l"])
     for x in region:
         blk = fn.blocks[x]
         t = blk["term"]
@@ -193,9 +202,11 @@ def negation_shape(fn, region):
                 return True, "inner.is_none().then_some(0)"
             return False, "then_some(%s) on %s" % (show(v), show(r)[:60])
         for s in blk["stmts"]:
-            if not (s["k"] == "assign" and s["lhs"]["l"] == 0 and not s["lhs"]["p"]):
+            if not (s["k"] == "assign" and s["lhs"]["l"] in carriers and not s["lhs"]["p"]):
                 continue
             e = fn.expr_of_rvalue(s["rv"])
+            if e[0] == "local" and e[1] in carriers:
+                continue            # hand-over of the result between carriers
             inner_some = None
             for g in guards_of(fn, x):
                 ge = g[3]
@@ -408,6 +419,100 @@ def check_sum_chain(ctx, fn, callee_name, label, needs_empty_exit):
     return False
 
 
+def _check_sum_mapped_loop(ctx, fn, callee_name, label, loops):
+    """`for verdict in xs.iter().map(|x| inner(x)) { total += widen(verdict?) } Some(total)`: the inner call sits in the
+    map closure, the loop consumes the Option values (a conjunction helper taking an iterator of verdicts)."""
+    from cfg import decision_paths
+    crate = fn.b["crate"]
+    key0 = "%s|sum" % fn.path
+    for h, body, nxt in loops:
+        if nxt is None:
+            continue
+        nt = fn.blocks[nxt[0]]["term"]
+        stages = iter_pipeline(fn, nt, 0)
+        maps = [st for st in stages if st[0] == "total:map" and st[1]]
+        if len(maps) != 1:
+            continue
+        cf = get_fn(ctx.facts, crate, maps[0][1])
+        if not list(cf.calls(lambda t: callee(t) == callee_name)):
+            continue
+        ps = decision_paths(cf)
+        if len(ps) != 1 or ps[0][1] is None:
+            continue
+        r = ps[0][1]
+        inner = _inner_call(r, callee_name)
+        if not (len(inner) == 1 and (r == inner[0] or (r[0] == "call" and str(r[1]).endswith("Option::<T>::map") and r[2][0] == inner[0]))):
+            ctx.violation(key0 + "|accumulator", site(cf, 0), "%s: the mapped value is not the inner Option score: %s" % (label, show(r)[:100]))
+            return True
+        bad_stage = [st[0] for st in stages[1:] if st[0].startswith(("truncating:", "unknown:", "subset:")) or st[0] == "total:rev"]
+        if bad_stage:
+            ctx.violation(key0 + "|early-exit", site(fn, nxt[0]), "%s: stage `%s` of the iterator chain can skip, reorder or cut off atoms/columns" % (label, bad_stage[0]))
+            return True
+        nid = (nxt[0], nt["dest"]["l"])
+        # `?` on the yielded verdict, None propagated
+        brs = [bi for bi in body if fn.blocks[bi]["term"]["k"] == "call" and callee(fn.blocks[bi]["term"]).endswith("Try>::branch")
+               and any(x[0] == "call" and len(x) > 4 and x[4] == nid for x in walk(fn.expr_of_operand(fn.blocks[bi]["term"]["args"][0])))]
+        resid = [bi for bi, t in fn.calls(lambda t: callee(t).endswith("from_residual"))]
+        if not brs or not resid:
+            ctx.violation(key0 + "|propagate", site(fn, nxt[0]), "a failing atom/column does not make %s return None" % label)
+            return True
+        # accumulator
+        acc = None
+        for bi in sorted(body):
+            tt = fn.blocks[bi]["term"]
+            if tt["k"] == "assert" and tt.get("kind") == "Overflow" and tt["op"] == "Add" and tt["ty"] == "u32":
+                a, b_ = fn.expr_of_operand(tt["a"]), fn.expr_of_operand(tt["b"])
+                for acc_e, add_e in ((a, b_), (b_, a)):
+                    if acc_e[0] == "local" and _is_branch_payload(add_e, nid):
+                        acc = acc_e[1]
+        if acc is None:
+            ctx.violation(key0 + "|accumulator", site(fn, nxt[0]), "%s: the yielded scores are not summed into a u32 accumulator" % label)
+            return True
+        inits = [e for dbi, dsi, e in fn.def_exprs(acc) if dbi not in body]
+        ret_some = any(rv.get("agg") == "adt" and rv.get("variant") == "Some" and fn.expr_of_operand(rv["ops"][0])[0] == "local" and fn.expr_of_operand(rv["ops"][0])[1] == acc
+                       for bi, si, rv in ret_aggregates(fn))
+        if not ret_some:
+            # the Some(total) may be built into the return slot of a folded-in helper first
+            for bi_, si_, s_ in fn.stmts(lambda s_: s_["k"] == "assign" and s_["rv"].get("agg") == "adt" and s_["rv"].get("variant") == "Some"):
+                e_ = fn.expr_of_operand(s_["rv"]["ops"][0])
+                if e_[0] == "local" and e_[1] == acc and bi_ not in body:
+                    ret_some = True
+        if not (inits and all(e[0] == "const" and e[1] == 0 for e in inits) and ret_some):
+            ctx.violation(key0 + "|accumulator", site(fn, nxt[0]), "%s: accumulator does not start at 0 / is not what is returned" % label)
+            return True
+        exits = fn.loop_exits((h, body, None))
+        for a_, b2 in exits:
+            if (a_ == nxt[1] and b2 == nxt[2]) or is_diverging(fn, b2):
+                continue
+            if fn.all_paths_to_return_pass(b2, via_nodes=resid):
+                continue
+            ctx.violation(key0 + "|early-exit", site(fn, a_), "%s leaves its loop early without returning None: later atoms/columns are ignored" % label)
+            return True
+        ctx.ok(site(fn, nxt[0]), "%s: an inner None propagates to a None result with no further matching (loop over mapped verdicts)" % label)
+        ctx.ok(site(fn, nxt[0]), "%s: score = 0 + Σ inner scores (u32), returned in Some (loop over %s)" % (label, " → ".join(st[0] for st in stages)))
+        return True
+    return False
+
+
+def _is_branch_payload(e, nid, depth=0):
+    """the `?`-payload of the value the loop's iterator yielded (through lossless widening)"""
+    e = strip_casts(e)
+    if depth > 14 or not isinstance(e, tuple) or not e:
+        return False
+    if e[0] in ("field", "downcast", "ref", "deref"):
+        return _is_branch_payload(e[1], nid, depth + 1)
+    if e[0] == "cast":
+        return _is_branch_payload(e[2], nid, depth + 1)
+    if e[0] == "call":
+        nm = str(e[1])
+        short = nm.rsplit("::", 1)[-1]
+        if len(e) > 4 and e[4] == nid:
+            return True
+        if nm.endswith("Try>::branch") or (short == "from" and "From<" in nm) or (short == "into" and "Into<" in nm) or nm.endswith("From::from"):
+            return _is_branch_payload(e[2][0], nid, depth + 1)
+    return False
+
+
 def check_sum_loop(ctx, fn, callee_name, label, needs_empty_exit):
     key0 = "%s|sum" % fn.path
     loops = for_loops(fn)
@@ -417,6 +522,8 @@ def check_sum_loop(ctx, fn, callee_name, label, needs_empty_exit):
             target = (h, body, nxt)
     if target is None or target[2] is None:
         if check_sum_chain(ctx, fn, callee_name, label, needs_empty_exit):
+            return
+        if _check_sum_mapped_loop(ctx, fn, callee_name, label, loops):
             return
         ctx.violation(key0 + "|loop", site(fn, 0), "%s does not iterate over its atoms/columns calling %s" % (label, callee_name))
         return
@@ -622,7 +729,34 @@ def rule_match_list_filter(ctx):
         for f_, bi, kind, cpath in subs:
             n += 1
             key = "%s|filter|%d" % (name, n)
-            if kind not in ("filter_map", "loop") or cpath is None:
+            if kind == "loop":
+                # a loop that pushes (item, score): every push is control dependent on the inner score being Some and
+                # on nothing else that depends on the item; the loop runs over all items (no adaptor that skips)
+                pushes = [(pb, pt) for pb, pt in f_.calls(lambda t: callee(t).endswith("Vec::<T, A>::push"))]
+                inner_calls = [(cb, ct) for cb, ct in f_.calls(lambda t: callee(t) == inner)]
+                if not pushes or not inner_calls:
+                    raise Inconclusive("%s: neither an iterator pipeline nor a push loop over the score" % name)
+                okl = True
+                why = ""
+                for pb, pt in pushes:
+                    gs = guards_of(f_, pb)
+                    dep = [g for g in gs if g[3][0] == "discr" and _inner_call(g[3], inner) and g[2] == [1]]
+                    other = [g for g in gs if not (g[3][0] == "discr" and (_inner_call(g[3], inner) or any(x[0] == "call" and str(x[1]).endswith("::next") for x in walk(g[3]))))
+                             and not (g[3][0] == "call" and str(g[3][1]).endswith("::is_empty"))]
+                    if not dep:
+                        okl, why = False, "an item is pushed without looking at the score"
+                    elif other:
+                        okl, why = False, "whether an item is kept also depends on %s" % show(other[0][3])[:60]
+                its = [t for b_, t in f_.calls(lambda t: callee(t).endswith("IntoIterator::into_iter") or callee(t).endswith("::into_iter"))]
+                for t_ in its:
+                    if _bad_stages(f_, [t_]):
+                        okl, why = False, "the items pass through `%s` before they are scored" % _bad_stages(f_, [t_])[0]
+                if okl:
+                    ctx.ok(site(f_, pushes[0][0]), "%s: an item is pushed exactly when %s returns Some" % (name.rsplit("::", 2)[-2] + "::match_list", inner.rsplit("::", 2)[-2] + "::score"))
+                else:
+                    ctx.violation(key, site(f_, pushes[0][0]), "%s: %s" % (name, why))
+                continue
+            if kind not in ("filter_map",) or cpath is None:
                 ctx.violation(key, site(f_, bi), "%s selects items with `%s` instead of the score: items are dropped for another reason than `no match`" % (name, kind))
                 continue
             cf = get_fn(facts, M, cpath)
@@ -713,8 +847,7 @@ def rule_stable_sort(ctx):
         fm = [(b_, t_) for b_, t_ in fn.calls(lambda t: callee(t).endswith("Iterator::filter_map"))]
         if fm:
             ctx.ok(site(fn, fm[0][0]), "list built by filter_map over score(..)")
-        else:
-            ctx.violation("%s|filter_map|1" % name, site(fn, 0), "match_list does not build its list with filter_map over the score")
+        # (how the list is filled -- filter_map, a loop with push -- is judged by C15.match-list-filter)
         # empty shortcut returns every input with 0
         em = [(b_, t_) for b_, t_ in fn.calls(lambda t: callee(t).endswith("::is_empty"))]
         if em:
